@@ -55,6 +55,10 @@ def run(ctx, rep):
     r28(ctx, rep)
     from . import c10
     c10.run(ctx, rep, r1="R2.9", only_transform=True)
+    rep.rule("R2.11", "the stored objective value is a Python float, not a view of the user's output buffer (see C11 R11.6)")
+    from . import c11
+    from ..report import Renamed
+    c11.r116(ctx, Renamed(rep, to="R2.11"), rule="R2.11")
     rep.rule("R2.10", "objective / constraint values reach the violation and merit computations through the right parameters (no swapped or duplicated value arguments)")
     if common.check_swapped_args(ctx, rep, "R2.10", lambda g: g.cls is not None and g.cls.name in ("Problem", "NonlinearConstraints", "LinearConstraints", "BoundConstraints", "TrustRegion")) < 10:
         raise AnalysisError("call sites of the violation / merit computations not found")
